@@ -314,3 +314,7 @@ func zzItems(tag string) int {
 	}
 	return 1
 }
+
+// URL accessors for harnesses that use a nil *URL (net/url is not interpreted)
+func zzURLString(u *URL) string   { return "http://node" }
+func zzURLHostname(u *URL) string { return "node" }
